@@ -91,7 +91,8 @@ def sh(cmd, **kw):
 
 
 def scratch_copy():
-    d = tempfile.mkdtemp(prefix="dynmut-")
+    shm = "/dev/shm"
+    d = tempfile.mkdtemp(prefix="dynmut-", dir=shm if os.path.isdir(shm) and os.access(shm, os.W_OK) else None)
     dst = os.path.join(d, "repo")
     shutil.copytree(REPO, dst, ignore=shutil.ignore_patterns(".git", "__pycache__", "*.pyc", ".pytest_cache", "docs"))
     return d, dst
